@@ -221,6 +221,10 @@ func (ex *Exec) runRoot() {
 		ex.opts.Safety = false
 		ex.note("option nosafety: the safety conditions of %s are assumed, not proved", funcKey(fn))
 	}
+	if ct != nil && ct.ClausesOnly {
+		ex.assumeRequires = true
+		ex.note("option clausesonly: the preconditions of the callees of %s are assumed, not proved", funcKey(fn))
+	}
 	ex.cover(fr, st, "entry", fn.Pos())
 	ex.runBody(fr, st)
 	ex.finishRoot(fr, pre)
@@ -967,6 +971,10 @@ func (ex *Exec) applyContract(fr *Frame, st *State, fn *ssa.Function, ct *FuncCo
 		lab := c.Label
 		if lab == "" {
 			lab = "requires"
+		}
+		if ex.assumeRequires {
+			ex.assume(st.pc, t)
+			continue
 		}
 		o := ex.oblige(fr, st, "pre", lab+site, t, pos, "precondition of "+key+": "+c.Src+" at "+ex.srcLine(pos))
 		if o != nil {
